@@ -609,6 +609,9 @@ func (c *Compiler) compileSwitch(node *ast.Switch) error {
 			c.changeOperand(caseJumpPositions[offset], delta)
 			offset++
 		}
+		// Remove the switch value from the stack before running the case
+		// block, so that break/continue inside the block leave nothing behind
+		c.emit(op.PopTop)
 		if choice.Block() == nil {
 			// Empty case block
 			c.emit(op.Nil)
@@ -625,6 +628,9 @@ func (c *Compiler) compileSwitch(node *ast.Switch) error {
 		return err
 	}
 	c.changeOperand(jumpDefaultPos, delta)
+
+	// No case matched: remove the switch value from the stack
+	c.emit(op.PopTop)
 
 	// Compile the default case block if it exists
 	if defaultJumpPos != -1 {
@@ -643,11 +649,6 @@ func (c *Compiler) compileSwitch(node *ast.Switch) error {
 		}
 		c.changeOperand(pos, delta)
 	}
-
-	c.emit(op.Swap, 1)
-
-	// Remove the duplicated switch value from the stack
-	c.emit(op.PopTop)
 	return nil
 }
 
